@@ -1,0 +1,65 @@
+//go:build verif
+
+// Contracts for the deductive checks under /verif (comment-only; no code).
+
+package chunk
+
+// ---- C06: size bounds of the fixed-size splitter and of the accepted specifications ----------
+//@ func ext io.ReadFull
+//@   writes-args
+//@   ensures 0 <= n && n <= len(buf)
+//@   ensures err == nil ==> n == len(buf)
+//@   ensures err == io.ErrUnexpectedEOF ==> 0 < n && n < len(buf)
+//@   ensures err == io.EOF ==> n == 0
+//@ func ext github.com/libp2p/go-buffer-pool.Get
+//@   ensures len(result) == length && fresh(arr(result))
+//@ func ext github.com/libp2p/go-buffer-pool.Put
+// (readers are assumed not to return a wrapped io.ErrUnexpectedEOF of their own: a reader that
+// does - e.g. a decompressor on truncated input - makes NextBytes report a clean end of input)
+//@ func ext errors.Is
+//@   ensures result == (err == target)
+//@ func ext strings.Split
+//@   ensures len(result) >= 1
+
+// reallocChunk(full, n): the first n bytes of full, never an empty non-nil buffer
+//@ func reallocChunk
+//@   prop C06
+//@   arith int-assumed
+//@   requires 0 <= n && n <= len(full) && len(full) <= 4294967295
+//@   modifies nothing
+//@   ensures[nothing_for_nothing] n == 0 ==> len(result) == 0
+//@   ensures[exactly_n_bytes] len(result) == n
+//@   ensures[the_same_bytes] forall(j, 0, n, result[j] == old(full[j]))
+
+// NextBytes: a chunk is never longer than the configured size, is shorter only at the end of the
+// input (after which the splitter reports io.EOF), and a recorded error is reported from then on
+//@ func (*sizeSplitterv2).NextBytes
+//@   prop C06
+//@   arith int-assumed
+//@   requires ss != nil
+//@   modifies ss.err
+//@   ensures[never_longer_than_size] err == nil ==> len(result0) <= int(ss.size)
+//@   ensures[short_chunk_only_at_the_end] err == nil && len(result0) < int(ss.size) ==> ss.err == io.EOF
+//@   ensures[never_empty_for_a_positive_size] err == nil && ss.size > 0 ==> len(result0) > 0
+//@   ensures[errors_are_sticky] old(ss.err) != nil ==> err == old(ss.err) && len(result0) == 0
+//@   site[reads_a_full_chunk] call:ReadFull : arg0 == ss.r && len(arg1) == int(ss.size)
+
+// accepted specifications: size-N needs 0 < N <= ChunkSizeLimit; rabin-min-avg-max needs
+// 16 <= min < avg < max <= ChunkSizeLimit
+//@ func ext strconv.Atoi
+//@ func NewSizeSplitter
+//@   assumed
+//@ func NewRabinMinMax
+//@   assumed
+//@ func parseSizeString
+//@   prop C06
+//@   arith int-assumed
+//@   safety index
+//@   modifies nothing
+//@   site[size_within_bounds] call:NewSizeSplitter : 0 < arg1 && arg1 <= ChunkSizeLimit
+//@ func parseRabinString
+//@   prop C06
+//@   arith int-assumed
+//@   safety index
+//@   modifies all
+//@   site[rabin_bounds_ordered] call:NewRabinMinMax : 16 <= arg1 && arg1 < arg2 && arg2 < arg3 && arg3 <= ChunkSizeLimit
